@@ -54,8 +54,9 @@ def lin_val(a, env):
 
 
 class Model:
-    def __init__(self, fn):
+    def __init__(self, fn, const_val=None):
         self.fn = fn
+        self._cv, self._cv_memo, self._lin_memo = const_val or (lambda d: None), {}, {}
         self.P = Prov(fn)
         P = self.P
         self.src = [l for l, lab in P.param_of.items() if "BytesMut" in fn["params"][int(lab[1:])].get("ty", "")]
@@ -72,6 +73,11 @@ class Model:
         self.rlocal = None
         self.rwidth = None
         self._splits()
+
+    def const_val(self, d):
+        if d not in self._cv_memo:
+            self._cv_memo[d] = self._cv(d)
+        return self._cv_memo[d]
 
     def is_src(self, e):
         e = unwrap(e)
@@ -135,7 +141,8 @@ class Model:
         if k == "path":
             lid = e["res"].get("local")
             if lid is None:
-                return None
+                v = self.const_val(e["res"].get("def", ""))      # named integer constant (compiler-evaluated item fact)
+                return {1: v} if v is not None else None
             if lid == self.rlocal:
                 return {"R": 1}
             if lid in self.maxp:
@@ -174,7 +181,9 @@ class Model:
         if t == "leaf" and f[1] == "expr":
             e = unwrap(f[2])
             if e.get("e") == "bin" and e["op"] in ("<", "<=", ">", ">=", "==", "!="):
-                l, r = self.sym(e["l"]), self.sym(e["r"])
+                if id(e) not in self._lin_memo:
+                    self._lin_memo[id(e)] = (self.sym(e["l"]), self.sym(e["r"]), e)
+                l, r, _ = self._lin_memo[id(e)]
                 if l is None or r is None:
                     return None
                 a, b = lin_val(l, env), lin_val(r, env)
@@ -216,7 +225,7 @@ def run(ctx):
 def decode(ctx):
     R_ = "K6-decode"
     fn = ctx.fn(CORE, DEC)
-    md = Model(fn)
+    md = Model(fn, lambda d: ctx.facts.const_val(CORE, d) if d else None)
     P = md.P
     loc = dict(file=fn["file"], line=fn["line"])
     ok = len(md.src) == 1 and len(md.maxp) == 1 and md.H is not None and md.rlocal is not None
@@ -405,7 +414,7 @@ def encode(ctx):
     tb = cands[0][0]
     width = {"u64": 8, "u32": 4, "u16": 2, "usize": 8}.get(callee_of(tb).split("impl ")[-1].split(">")[0])
     dec = ctx.fn(CORE, DEC)
-    md = Model(dec)
+    md = Model(dec, lambda d: ctx.facts.const_val(CORE, d) if d else None)
     ctx.check(width is not None and width == md.rwidth == md.H and callee_of(tb).endswith("to_be_bytes"), R_, fn["fn"], "header-format-agrees",
               f"u{(width or 0) * 8} big-endian on both sides, {md.H}-byte header",
               f"encode writes a {width}-byte big-endian length ({callee_of(tb)}) but decode reads a {md.rwidth}-byte integer from a {md.H}-byte header", **loc)
@@ -423,7 +432,7 @@ def encode(ctx):
         # the header slot must be stitched in front of the payload: hdr.unsplit(payload) then dst.unsplit(hdr)
         uns = [n for n in walk(fn["body"]) if n.get("e") == "mcall" and n.get("name") == "unsplit" and not n.get("exp")]
         front = [n for n in uns if P.local_of(n["recv"]) == hdr and (P.local_roots(n["args"][0]) & wroots)]
-        out = [n for n in uns if "p1" in P.labels(n["recv"], args=False) and hdr in P.local_roots(n["args"][0])]
+        out = [n for n in uns if P.param_of.get(P.local_of(n["recv"])) == "p1" and hdr in P.local_roots(n["args"][0])]
         ctx.check(len(front) == 1 and len(out) == 1 and order[id(front[0])] < order[id(out[0])] and order[id(writes[0])] < order[id(out[0])], R_, fn["fn"], "header-precedes-payload",
                   "header.unsplit(payload); dst.unsplit(header)",
                   "the frame is not assembled as header ++ payload appended to the output buffer (shape not understood or order changed)", **loc)
